@@ -33,6 +33,9 @@ func concFiles() map[string]string {
 		"plain.tw":           "plain {{ gid + 1 }} {{ who }}",
 		"chain.tw":           "@if(zero)a@elseif(zero)b@elseif(zero == 1)c@elseif(zero)d@else e{{ who }}@end|@if(zero)x@elseif(gid > 1000)y@elseif(zero)z@else w@end",
 		"errors/500.tw":      "<custom error page>",
+		"errors/broken.tw":   "broken error page {{ reason }}",
+		"joinok.tw":          "{{ items.join(\"-\") }}|{{ items.join(who) }}|{{ [who, who, who].join(\", \") }}|{{ gid.decimal(\".\", 3) }}",
+		"joinbad.tw":         "{{ items.join(\"+\") }} then {{ items.join(gid) }}",
 		"badpass.tw":         "<ul>@each(v in items)<li>{{ v.pause() }} {{ who }}</li>{{ 6 / (v % 10 - 1) }}@end</ul>",
 		"badfor.tw":          "@for(k = 0; k < 4; k++)[{{ who }} {{ 6 / (2 - k) }}]@end",
 		"assignint.tw":       "{{ v = 1 }}{{ w = [1, 2] }}int {{ v.pause() }}",
@@ -85,6 +88,10 @@ func concOps() []concOp {
 			out, err := textwire.EvaluateString("x {{ who }}\n{{ gid / zero }}", data)
 			return fmt.Sprintf("out=%s err=%v", out, err)
 		}},
+		// a built-in that fails after a sibling call succeeded, next to the same built-in succeeding elsewhere
+		{"String(joinok)", false, str("joinok")},
+		{"String(joinbad)", false, str("joinbad")},
+		{"Response(joinbad)", false, resp("joinbad")},
 		// loops that fail in a later pass, after earlier passes produced output
 		{"String(badpass)", false, str("badpass")},
 		{"Response(badfor)", false, resp("badfor")},
@@ -111,8 +118,9 @@ func concOps() []concOp {
 			st := reflect.StructOf([]reflect.StructField{{Name: "F", Type: reflect.TypeOf(0)}, {Name: fmt.Sprintf("X%d", n), Type: reflect.TypeOf("")}})
 			sv := reflect.New(st).Elem()
 			sv.Field(0).SetInt(n)
-			src := fmt.Sprintf("mail%d@host%d.example @w%d {{ u.k%d }} {{ s.f }} {{ {zz%d: 1, aa: 2}.aa }}", n, n, n, n, n)
-			want := fmt.Sprintf("mail%d@host%d.example @w%d %d %d 2", n, n, n, n, n)
+			// (also a count of decimals larger than any asked for before)
+			src := fmt.Sprintf("mail%d@host%d.example @w%d {{ u.k%d }} {{ s.f }} {{ {zz%d: 1, aa: 2}.aa }} {{ 7.decimal(\",\", %d) }}", n, n, n, n, n, 17+n)
+			want := fmt.Sprintf("mail%d@host%d.example @w%d %d %d 2 7,%s", n, n, n, n, n, strings.Repeat("0", int(17+n)))
 			out, err := textwire.EvaluateString(src, map[string]any{"u": map[string]any{fmt.Sprintf("K%d", n): n}, "s": sv.Interface()})
 			if err != nil || out != want {
 				return fmt.Sprintf("fresh names: got (%q, %v), want %q", out, err, want)
@@ -149,7 +157,7 @@ func init() {
 		Race:       true,
 		MaxWorkers: 6,
 		CPUBudget:  120,
-		Rule: "rounds of G in {2, 8, 32(,128)} goroutines x GOMAXPROCS in {1, 2, 16}, every goroutine issuing 200 operations drawn (seeded) from 22 concrete calls on one loaded tree - String of a layout+component-in-loop page, a loop page, an object/dump page, two pages failing at run time, a missing name, a shuffle() page; Response ok/failing/missing (error page through the string API); EvaluateString ok/failing; EvaluateFile; loops that fail in a later pass after producing output; renders without any data that assign names at top level (as integer, string, boolean, object) next to one that reads the name and must fail - with goroutine-specific data otherwise; a registered custom function called from inside the templates yields or sleeps 50us on a seeded schedule; every round also loads a tree without layouts and components right after a tree in another directory was used and makes its very first renders (failing ones included) concurrent. " +
+		Rule: "rounds of G in {2, 8, 32(,128)} goroutines x GOMAXPROCS in {1, 2, 16}, every goroutine issuing 200 operations drawn (seeded) from 25 concrete calls on one loaded tree - String of a layout+component-in-loop page, a loop page, an object/dump page, two pages failing at run time, a missing name, a shuffle() page; Response ok/failing/missing (error page through the string API); EvaluateString ok/failing; EvaluateFile; loops that fail in a later pass after producing output; renders without any data that assign names at top level (as integer, string, boolean, object) next to one that reads the name and must fail - with goroutine-specific data otherwise; a registered custom function called from inside the templates yields or sleeps 50us on a seeded schedule; every round also loads a tree without layouts and components right after a tree in another directory was used and makes its very first renders (failing ones included) concurrent. " +
 			"Oracles: the harness is built with the Go race detector (halt_on_error=0, log per process); after the rounds the log is parsed and every report with a frame inside the repository is a violation (de-duplicated by the pair of innermost repository frames); the recorded history (goroutine, operation, logical call/return stamps from one atomic counter, result) is checked offline against the stateless model: every result must equal what the same operation returned alone before the round (shuffle as a multiset). Evidence counts operations that overlapped an operation of a different kind. distinct_nontrivial = distinct (round, goroutine, operation) triples that overlapped another kind",
 		Assumptions: []string{
 			"only interleavings the scheduler produced; the race detector sees races between accesses that actually executed",
@@ -185,6 +193,8 @@ func init() {
 				cfg := cfgs[i%len(cfgs)]
 				custom := i%2 == 1
 				debug := (i/2)%2 == 1
+				// every third round with a custom page uses one that fails itself
+				brokenPage := custom && i%3 == 0
 				runtime.GOMAXPROCS(cfg.procs)
 				defer runtime.GOMAXPROCS(runtime.NumCPU())
 				// the very first use of the string API in this process is concurrent (nothing was lexed,
@@ -197,6 +207,9 @@ func init() {
 				conf := &config.Config{TemplateDir: "conc", TemplateExt: ".tw", DebugMode: debug}
 				if custom {
 					conf.ErrorPagePath = "errors/500"
+				}
+				if brokenPage {
+					conf.ErrorPagePath = "errors/broken"
 				}
 				// baselines come from a template value of their own, so that the one used
 				// concurrently was never used alone before
@@ -211,7 +224,7 @@ func init() {
 					return
 				}
 				abs, _ := filepath.Abs("conc/plain.tw")
-				desc := map[string]any{"goroutines": cfg.g, "gomaxprocs": cfg.procs, "custom_error_page": custom, "debug": debug, "round": i}
+				desc := map[string]any{"goroutines": cfg.g, "gomaxprocs": cfg.procs, "custom_error_page": custom, "custom_error_page_fails": brokenPage, "debug": debug, "round": i}
 				c.Input(desc)
 				// goroutine-specific data and the stand-alone baseline of every operation
 				dataOf := func(g int) map[string]any {
